@@ -422,6 +422,43 @@ func progMachine() *LazyProgram {
 	}
 }
 
+// progMachineRejectedStepLeavesTraces: like progMachine, but the action that skips after drawing has already
+// changed the state (a counter of attempts that the invariant's message names). The property is a
+// deterministic function of its draws; the bits of a rejected step are part of them.
+func progMachineRejectedStepLeavesTraces() *LazyProgram {
+	return &LazyProgram{
+		Name: "machine(inc,attempt-then-skip)",
+		Body: func(t *rapid.T, e *Env) {
+			n, attempts := 0, 0
+			t.Repeat(map[string]func(*rapid.T){
+				"inc": func(t *rapid.T) {
+					if rapid.Bool().Draw(t, "b") {
+						n++
+					}
+				},
+				"attempt": func(t *rapid.T) {
+					attempts++ // changed before the action finds out that it does not apply
+					if rapid.IntRange(0, 3).Draw(t, "a") != 0 {
+						t.Skip("not applicable")
+					}
+				},
+				"": func(t *rapid.T) {
+					e.cur.Draws = fmt.Sprintf("n=%d attempts=%d", n, attempts)
+					e.Do(t, "invariant", e.cur.Draws)
+				},
+			})
+		},
+		Base: func(ctx, d string) Beh {
+			var n, a int
+			fmt.Sscanf(d, "n=%d attempts=%d", &n, &a)
+			if n >= 3 {
+				return BFatalA
+			}
+			return BPass
+		},
+	}
+}
+
 // progCustomCleanup: a Custom generator that registers a cleanup on its inner T and decides there; the body decides too.
 func progCustomCleanup() *LazyProgram {
 	return &LazyProgram{
